@@ -93,6 +93,19 @@ def ingredients(rng, kbpk):
         hv = make_header(rng, "B" if len(kbpk) >= 16 else "A", [(i_, data3[i_] if n_ != 1 else rs(rng, 3)) for i_ in order])
         ops[f"load-ok-perm{n_}"] = ("load", str(hv))
         ops[f"unwrap-ok-perm{n_}"] = ("unwrap", tr31.wrap(kbpk, hv, rb(rng, 16)))
+    # what an earlier block looked like must not shape a later one: a long key under an algorithm without a default mask followed by
+    # a short key wrapped without a mask; an optional block of more than 251 characters received with a three- or four-byte
+    # "length of length" followed by a wrap / str (a fresh header writes 0002)
+    for alg_ in "HR":
+        hl_ = make_header(rng, "B" if len(kbpk) >= 16 else "A", rand_blocks(rng, 1), alg=alg_)
+        ops[f"unwrap-ok-longkey-alg{alg_}"] = ("unwrap", tr31.wrap(kbpk, hl_, rb(rng, rng.choice((40, 64, 100))), 0))
+    ops["wrap-short-nomask"] = ("wrap", (rb(rng, 8), None))
+    for lol_ in (3, 4):
+        data_ = rs(rng, rng.randrange(252, 300))
+        ln_ = 2 + 2 + 2 + 2 * lol_ + len(data_)           # id, "00", length of length (in bytes), the length itself, data
+        blk_ = "KS" + "00" + format(lol_, "02X") + format(ln_, "0%dX" % (2 * lol_)) + data_
+        body_ = "D0000" + rs(rng, 2) + "A" + rs(rng, 1) + rs(rng, 2) + rs(rng, 1) + "01" + "00" + blk_
+        ops[f"load-ok-wide-length-{lol_}"] = ("load", body_[0] + str(len(body_)).zfill(4) + body_[5:])
     ops["str"] = ("str", None)
     # the mapping methods optional blocks inherit (update, setdefault, pop, clear): the same validation and state as item assignment
     ops["update-ok"] = ("update", [(rs(rng, 2), rs(rng, 3)), ("KS", rs(rng, 5))])
@@ -240,7 +253,8 @@ def generate(rng, tier, seed):
              "unwrap-fail-bad-version", "load-ok", "load-fail-mid", "setblock-KS", "delblock-KS", "wrap", "str",
              "load-ok-foreign-pad-B", "load-ok-D-algA", "load-ok-A-algT",
              "setkbpk-other", "unwrap-other-key-B", "unwrap-other-key-D"]
-    alpha += ["load-ok-perm0", "load-ok-perm2", "unwrap-ok-perm0", "unwrap-ok-perm1", "unwrap-ok-perm2"]
+    alpha += ["load-ok-perm0", "load-ok-perm2", "unwrap-ok-perm0", "unwrap-ok-perm1", "unwrap-ok-perm2",
+              "unwrap-ok-longkey-algH", "wrap-short-nomask", "load-ok-wide-length-3", "load-ok-wide-length-4"]
     L = 2 if tier == "quick" else 3
     for ln in range(1, L + 1):
         for names in itertools.product(alpha, repeat=ln):
